@@ -562,3 +562,30 @@ def _(v):
                               ("times_number", v.call(m1.__mul__, s), k1 * s * cp), ("number_times", v.call(m1.__rmul__, s), s * k1 * cp), ("over_number", v.call(m1.__truediv__, s), k1 / s * cp),
                               ("negated_scaled_sum", v.call(v.call(v.call(m1.__add__, m2).__mul__, s).__neg__), -(k1 + k2) * s * cp)):
         v.prove_identity(label, v.call(expr, var, reaction=rxn), want)
+
+
+@harness("C16", "named_override_through_the_units_wrapper", functions=["chempy.kinetics.arrhenius:ArrheniusParamWithUnits.as_RateExpr", "chempy.kinetics.arrhenius:ArrheniusParam.as_RateExpr"], kind="data")
+def _(v):
+    """'a named override of an argument replaces exactly that argument', through the unit-carrying parameter set as well: the unique keys given
+    to ArrheniusParamWithUnits.as_RateExpr reach the rate expression, an override of the pre-exponential factor doubles the rate, an override
+    of the activation energy changes only the exponent, and without overrides the stored values are used"""
+    import math
+    import warnings
+    from chempy.chemistry import Reaction
+    from chempy.kinetics.arrhenius import ArrheniusParamWithUnits
+    from chempy.units import default_units as u, default_constants as c, to_unitless
+    warnings.simplefilter("ignore")
+    try:
+        ap = ArrheniusParamWithUnits(1e10 / u.s, 40e3 * u.J / u.mol)
+        ratex = ap.as_RateExpr(unique_keys=("Aa", "Ea_over_R"))
+        rx = Reaction({"A": 1}, {"B": 1}, ratex)
+        base = {"A": 2 * u.molar, "temperature": 300 * u.K}
+        val = lambda extra: float(to_unitless(rx.rate(dict(base, **extra))["B"], u.molar / u.s))
+        R = float(to_unitless(c.molar_gas_constant, u.J / u.K / u.mol))
+        k0 = 1e10 * math.exp(-40e3 / (R * 300))
+        r0, rA, rE = val({}), val({"Aa": 2e10 / u.s}), val({"Ea_over_R": 3000 * u.K})
+        ok = abs(r0 / (2 * k0) - 1) < 1e-9 and abs(rA / (4 * k0) - 1) < 1e-9 and abs(rE / (2 * 1e10 * math.exp(-3000 / 300.0)) - 1) < 1e-9
+        det = repr((r0, rA, rE, 2 * k0))
+    except Exception as ex:
+        ok, det = False, repr(ex)[:200]
+    v.prove("overrides_reach_the_rate_expression", ok, detail=det)
